@@ -16,11 +16,15 @@ import (
 // n: 读取字节数
 // round: 检测方式
 // counter: 结果集统计
-func worker(jobs chan int, source io.Reader, n int, round func([]byte) []*randomness.TestResult, counter []int32, distributions [][]float64, wait *sync.WaitGroup) {
+// readErr: 记录首个随机源读取错误
+func worker(jobs chan int, source io.Reader, n int, round func([]byte) []*randomness.TestResult, counter []int32, distributions [][]float64, wait *sync.WaitGroup, readErr *firstError) {
 	buf := make([]byte, n, n*2)
 	for i := range jobs {
 		_, err := source.Read(buf)
 		if err != nil {
+			// 读取失败时同样需要通知完成，否则调用方将永久阻塞
+			readErr.set(err)
+			wait.Done()
 			continue
 		}
 		resArr := round(buf)
@@ -36,13 +40,34 @@ func worker(jobs chan int, source io.Reader, n int, round func([]byte) []*random
 
 // 根据处理器情况启动worker
 // return 控制命令管道, 结束型号器
-func bootWorker(source io.Reader, n int, round func([]byte) []*randomness.TestResult, counter []int32, distributions [][]float64) (chan int, *sync.WaitGroup) {
+func bootWorker(source io.Reader, n int, round func([]byte) []*randomness.TestResult, counter []int32, distributions [][]float64) (chan int, *sync.WaitGroup, *firstError) {
 	var wait sync.WaitGroup
+	var readErr firstError
 	jobs := make(chan int)
 	for i := 0; i < runtime.NumCPU(); i++ {
-		go worker(jobs, source, n, round, counter, distributions, &wait)
+		go worker(jobs, source, n, round, counter, distributions, &wait, &readErr)
 	}
-	return jobs, &wait
+	return jobs, &wait, &readErr
+}
+
+// firstError 并发安全地保存首个错误
+type firstError struct {
+	mu  sync.Mutex
+	err error
+}
+
+func (e *firstError) set(err error) {
+	e.mu.Lock()
+	if e.err == nil {
+		e.err = err
+	}
+	e.mu.Unlock()
+}
+
+func (e *firstError) get() error {
+	e.mu.Lock()
+	defer e.mu.Unlock()
+	return e.err
 }
 
 // FactoryDetectFast 出厂检测，15种检测，每组 10^6比特，分50组
@@ -53,13 +78,16 @@ func FactoryDetectFast(source io.Reader) (bool, error) {
 	n := 1000000 / 8
 	counters := make([]int32, 15)
 	distributions := createDistributions(s, 15)
-	jobs, wg := bootWorker(source, n, Round15, counters, distributions)
+	jobs, wg, readErr := bootWorker(source, n, Round15, counters, distributions)
 	wg.Add(s)
 	defer close(jobs)
 	for i := 0; i < s; i++ {
 		jobs <- i
 	}
 	wg.Wait()
+	if err := readErr.get(); err != nil {
+		return false, err
+	}
 	fmt.Println(counters)
 	for i, itemCnt := range counters {
 		if int(itemCnt) < t {
@@ -83,13 +111,16 @@ func PowerOnDetectFast(source io.Reader) (bool, error) {
 	n := 1000000 / 8
 	counters := make([]int32, 15)
 	distributions := createDistributions(s, 15)
-	jobs, wg := bootWorker(source, n, Round15, counters, distributions)
+	jobs, wg, readErr := bootWorker(source, n, Round15, counters, distributions)
 	wg.Add(s)
 	defer close(jobs)
 	for i := 0; i < s; i++ {
 		jobs <- i
 	}
 	wg.Wait()
+	if err := readErr.get(); err != nil {
+		return false, err
+	}
 	fmt.Println(counters)
 
 	for i, itemCnt := range counters {
@@ -115,13 +146,16 @@ func PeriodDetectFast(source io.Reader) (bool, error) {
 	n := 20000 / 8
 	counters := make([]int32, 12)
 	distributions := createDistributions(s, 12)
-	jobs, wg := bootWorker(source, n, Round12, counters, distributions)
+	jobs, wg, readErr := bootWorker(source, n, Round12, counters, distributions)
 	wg.Add(s)
 	defer close(jobs)
 	for i := 0; i < s; i++ {
 		jobs <- i
 	}
 	wg.Wait()
+	if err := readErr.get(); err != nil {
+		return false, err
+	}
 	fmt.Println(counters)
 	for i, itemCnt := range counters {
 		if int(itemCnt) < t {
